@@ -369,3 +369,6 @@ def run(ctx, args):
         samples=samples or [{"note": "see family()"}], exhaustive=True, traces_validated=agree,
         assumptions=["programs the language itself leaves undefined (NslSem status ill) may be rejected", "5 and 5.0 are the same value"],
         extra={"outcome_counts": counts, "family_programs": len(fam)})
+
+
+replay = common.replay_vm_case
